@@ -515,6 +515,50 @@ impl<T, DEC: Decoder<Item = T, Error = Status>> Streaming<T, DEC> {
     }
 }
 ''')
+    u.raw('''
+// ---- message() under any chunking (C01 / C07 at the level of the async API) ----
+pub proof fn lemma_taken_pending<T, DEC: Decoder<Item = T, Error = Status>>(ss: Seq<Streaming<T, DEC>>, rs: Seq<Poll<Option<Result<T, Status>>>>, n: int)
+    requires 0 <= n <= rs.len(), forall|i: int| 0 <= i < n ==> #[trigger] rs[i] is Pending
+    ensures taken(ss, rs, n) =~= Seq::<u8>::empty()
+    decreases n
+{
+    if n > 0 { lemma_taken_pending(ss, rs, n - 1); assert(rs[n - 1] is Pending); }
+}
+// whatever number of polls (and body chunks) it took: a message handed out by message() is the decoding of the first frame of
+// "what was unparsed before ++ everything the body delivered meanwhile", and exactly that frame is consumed
+pub proof fn lemma_message_is_the_next_frame<T, DEC: Decoder<Item = T, Error = Status>>(pre: Streaming<T, DEC>, m: T, post: Streaming<T, DEC>)
+    requires driven(pre, Some(Ok(m)), post), !(pre.inner.state is Error)
+    ensures
+        post.inner.body.received@.len() >= pre.inner.body.received@.len(),
+        ({ let w = pre.inner.unparsed() + post.inner.body.received@.skip(pre.inner.body.received@.len() as int);
+           complete(w) && header_error(w, pre.inner.encoding, pre.inner.limit()) is None && plain_payload(w, pre.inner.encoding) is Some
+           && pre.decoder.dec(plain_payload(w, pre.inner.encoding)->Some_0) == Some(m) && post.inner.unparsed() == after_first(w) }),
+{
+    let (ss, rs) = choose|ss: Seq<Streaming<T, DEC>>, rs: Seq<Poll<Option<Result<T, Status>>>>| #[trigger] dec_trace(ss, rs) && rs.len() >= 1 && ss[0] == pre && ss[rs.len() as int] == post
+        && rs[rs.len() - 1] == Poll::Ready(Some(Ok::<T, Status>(m))) && forall|i: int| 0 <= i < rs.len() - 1 ==> #[trigger] rs[i] is Pending;
+    let n = rs.len() - 1;
+    assert forall|i: int| 0 <= i < n implies !(#[trigger] rs[i] matches Poll::Ready(Some(Err(_)))) by { assert(rs[i] is Pending); }
+    lemma_dec_chunking_independent(ss, rs, n);
+    lemma_taken_pending(ss, rs, n);
+    let i0 = n;
+    assert(dec_step(ss[i0], ss[i0 + 1], rs[i0]));
+    let l0 = pre.inner.body.received@.len() as int;
+    let r1 = ss[n].inner.body.received@; let r2 = post.inner.body.received@;
+    assert(pre.inner.unparsed() + r1.skip(l0) =~= ss[n].inner.unparsed());
+    assert(r2.skip(l0) =~= r1.skip(l0) + r2.skip(r1.len() as int)) by { assert(r2 =~= r2.take(r1.len() as int) + r2.skip(r1.len() as int)); assert(r2.take(r1.len() as int) == r1); }
+    assert(pre.inner.unparsed() + r2.skip(l0) =~= ss[n].inner.unparsed() + r2.skip(r1.len() as int)) by {
+        assert((pre.inner.unparsed() + r1.skip(l0)) + r2.skip(r1.len() as int) =~= pre.inner.unparsed() + (r1.skip(l0) + r2.skip(r1.len() as int)));
+    }
+    assert(ss[n].inner.limit() == pre.inner.limit()) by { lemma_config_kept(ss, rs, n); }
+}
+pub proof fn lemma_config_kept<T, DEC: Decoder<Item = T, Error = Status>>(ss: Seq<Streaming<T, DEC>>, rs: Seq<Poll<Option<Result<T, Status>>>>, n: int)
+    requires dec_trace(ss, rs), 0 <= n <= rs.len()
+    ensures ss[n].inner.same_config(&ss[0].inner)
+    decreases n
+{
+    if n > 0 { lemma_config_kept(ss, rs, n - 1); let i0 = n - 1; assert(dec_step(ss[i0], ss[i0 + 1], rs[i0])); }
+}
+''', props=['C01', 'C07'])
     hdr2 = 'impl<T, DEC: Decoder<Item = T, Error = Status>> Streaming<T, DEC> {'
     u.fn(D, 'message', within='impl<T> Streaming<T>', header=hdr2, close=False, props=['C01', 'C02', 'C07'],
          body_edits=[lambda t: t.sub_code('R24', r'future::poll_fn\(\|cx\| Pin::new\(&mut \*self\)\.poll_next\(cx\)\)\.await', 'self.verif_poll_until_ready().await')],
